@@ -11,7 +11,9 @@ import Bng.Model.SubMgr
     term s1                   => ok|notfound|busy <snap>  | badop (while calls are parked)
     tbegin A s1               => parked|done:ok|done:notfound|done:busy <snap> | badop
     tresume A                 => done:ok <snap> | badop
-    snap: rel=<a:n,…|-> held=<a:s1,…|-> sess=<s1,…|-> byip=<a:s1,…|-> ended=<s1:n,…|->
+    abegin P s1               => parked|done:notfound <snap> | badop      (AssignAddress held inside the allocator call)
+    aresume P                 => done:ok|done:exhausted|done:gone <snap> | badop
+    snap: rel=<a:n,…|-> held=<a:s1,…|-> sess=<s1,…|-> byip=<a:s1,…|-> ended=<s1:n,…|-> allocs=<a:n,…|->
 -/
 namespace Bng.Drv.SubMgrDrv
 open Bng Bng.Drv Bng.SubMgr
@@ -32,10 +34,11 @@ def showSnap (s : M) : String :=
     | some n => if (AMap.lookup s.sessions n).isSome then some s!"{a}:s{n}" else none
     | none => none)
   let ended := (sortNat ((s.ended.filter (·.2 > 0)).map (·.1))).map fun n => s!"s{n}:{count s.ended n}"
-  s!"rel={j rel} held={j held} sess={j sess} byip={j byip} ended={j ended}"
+  let allocs := (sortNat ((s.allocs.filter (·.2 > 0)).map (·.1))).map fun a => s!"{a}:{count s.allocs a}"
+  s!"rel={j rel} held={j held} sess={j sess} byip={j byip} ended={j ended} allocs={j allocs}"
 
 def tagOf (t : String) : Option Nat :=
-  match t with | "A" => some 0 | "B" => some 1 | "C" => some 2 | _ => none
+  match t with | "A" => some 0 | "B" => some 1 | "C" => some 2 | "P" => some 3 | "Q" => some 4 | _ => none
 
 def parseOp (toks : List String) : Option Op :=
   match toks with
@@ -44,23 +47,28 @@ def parseOp (toks : List String) : Option Op :=
   | ["term", n] => (parseTagged 's' n).map .term
   | ["tbegin", t, n] => do let t ← tagOf t; let n ← parseTagged 's' n; pure (.tbegin t n)
   | ["tresume", t] => (tagOf t).map .tresume
+  | ["abegin", t, n] => do let t ← tagOf t; let n ← parseTagged 's' n; pure (.abegin t n)
+  | ["aresume", t] => (tagOf t).map .aresume
   | ["touch", n, k] => if k == "activate" || k == "wall" || k == "unwall" then (parseTagged 's' n).map .touch else none
   | _ => none
 
 def showRes (op : Op) (r : Res) (s : M) : String :=
   let word := match r with
     | .ok => "ok" | .exists_ => "exists" | .notfound => "notfound" | .exhausted => "exhausted"
-    | .busy => "busy" | .parked => "parked" | .badop => "badop"
+    | .busy => "busy" | .parked => "parked" | .badop => "badop" | .gone => "gone"
   match op, r with
   | _, .badop => "badop"
   | .tbegin _ _, .parked => s!"parked {showSnap s}"
   | .tbegin _ _, _ => s!"done:{word} {showSnap s}"
   | .tresume _, _ => s!"done:{word} {showSnap s}"
+  | .abegin _ _, .parked => s!"parked {showSnap s}"
+  | .abegin _ _, _ => s!"done:{word} {showSnap s}"
+  | .aresume _, _ => s!"done:{word} {showSnap s}"
   | _, _ => s!"{word} {showSnap s}"
 
 /-! ### monitor -/
 structure Mon where
-  allocs : AMap Nat Nat := []     -- address → times it was handed out (seen in `held`)
+  allocs : AMap Nat Nat := []     -- address → times it was handed out (the allocator's own counter)
   prevHeld : List (Nat × Nat) := []
   macs : AMap Nat Nat := []       -- session → MAC it was created with (from the create ops that succeeded)
 
@@ -102,9 +110,9 @@ def monitor (mn : Mon) (op : Op) (impl : String) : Mon × List V :=
   let byip := parsePairsNS (field impl "byip")
   let ended := parsePairsSN (field impl "ended")
   let word := ((splitTokens impl).head?).getD ""
-  -- an address newly present in `held` (or handed to a different session) was allocated once more
-  let allocs := held.foldl (fun al (a, n) =>
-      if mn.prevHeld.contains (a, n) then al else SubMgr.bump al a) mn.allocs
+  -- the allocator's own count of successful allocations per address (an address handed out and given straight back
+  -- never shows in `held`)
+  let allocs : AMap Nat Nat := parsePairsNN (field impl "allocs")
   let macs := match op with
     | .create n m => if word == "ok" then AMap.insert mn.macs n m else mn.macs
     | _ => mn.macs
@@ -136,10 +144,8 @@ def monitor (mn : Mon) (op : Op) (impl : String) : Mon × List V :=
 structure St where
   model : Option M := none
   mon : Mon := {}
-  /-- sessions that were given a second address (KF-submgr-reassign-leak) / while their termination was in
-      progress (KF-submgr-assign-race), with the addresses involved -/
+  /-- sessions that were given a second address while live (KF-submgr-reassign-leak), with the address stranded -/
   reassigned : List (Nat × Nat) := []     -- (session, address stranded by a re-assignment)
-  raced : List (Nat × Nat) := []          -- (session, address stranded by an assignment during its termination)
   v6 : Bool := false
 
 def step (st : St) (toks : List String) (impl : String) : St × LineResult :=
@@ -155,7 +161,7 @@ def step (st : St) (toks : List String) (impl : String) : St × LineResult :=
       match op with
       | .assign n | .term n | .touch n =>
         if known m n then go st m op impl else (st, { modelObs := "nosuch" })
-      | .tbegin _ n =>
+      | .tbegin _ n | .abegin _ n =>
         if known m n then go st m op impl else (st, { modelObs := "badop" })
       | _ => go st m op impl
     | _, _ => (st, { modelObs := "badop" })
@@ -164,32 +170,28 @@ where
   go (st : St) (m : M) (op : Op) (impl : String) : St × LineResult :=
     let (m', r) := SubMgr.step m op
     let (mon', vs) := monitor st.mon op impl
-    -- exclusion clauses of the two recorded findings.  Both strand ONE address of ONE session: the pair (session, address)
-    -- is recorded when the finding's mechanism occurs and only a `residue` verdict about exactly that pair is attributed:
-    --   reassign-leak: AssignAddress on a session that holds an address → the address held BEFORE the call is never released
-    --   assign-race:   AssignAddress while that session's termination is parked → the NEW address is never released
-    -- a pair is dropped as soon as the implementation no longer shows the address as handed to that session.
+    -- exclusion clause of the recorded finding KF-submgr-reassign-leak: AssignAddress hands a second address to a LIVE
+    -- session that holds one → the address held BEFORE is never released.  The pair (session, address) is recorded when
+    -- that happens (at the moment the allocator call returns: `assign`, `aresume`) and only a `residue` verdict about
+    -- exactly that pair is attributed; a pair is dropped as soon as the implementation no longer shows the address as
+    -- handed to that session.  (Assignments racing a termination are no finding any more: fixed, see known_findings.)
     let own := fun (mm : M) (n : Nat) => (List.filter (fun (p : Nat × Nat) => p.2 == n) mm.owner).map (fun (p : Nat × Nat) => p.1)
-    let st1 := match op with
-      | .assign n =>
-        if SubMgr.hasAddr m n then
-          let parkedNow := List.any m.calls (fun (p : Nat × Nat × Nat) => p.2.1 == n)
-          if parkedNow then
-            { st with raced := ((own m' n).filter fun a => !(own m n).contains a).map (fun a => (n, a)) ++ st.raced }
-          else
-            { st with reassigned := (own m n).map (fun a => (n, a)) ++ st.reassigned }
-        else st
-      | _ => st
+    let target : Option Nat := match op with
+      | .assign n => some n
+      | .aresume tag => AMap.lookup m.acalls tag
+      | _ => none
+    let st1 := match target with
+      | some n =>
+        if SubMgr.reassigns m n && r == Res.ok then { st with reassigned := (own m n).map (fun a => (n, a)) ++ st.reassigned } else st
+      | none => st
     let heldNow := parsePairsNS (field impl "held")     -- (address, session) as the implementation shows them
     let still := fun (p : Nat × Nat) => heldNow.contains (p.2, p.1)
     let st1 := if !(impl.contains "held=") then st1 else   -- (an answer without a snapshot says nothing)
-      { st1 with raced := st1.raced.filter still, reassigned := st1.reassigned.filter still }
+      { st1 with reassigned := st1.reassigned.filter still }
     let clause := fun (v : V) =>
       if v.name != "residue" then "none" else
       match v.sess, v.addr with
-      | some n, some a =>
-        if st1.raced.contains (n, a) then "KF-submgr-assign-race"
-        else if st1.reassigned.contains (n, a) then "KF-submgr-reassign-leak" else "none"
+      | some n, some a => if st1.reassigned.contains (n, a) then "KF-submgr-reassign-leak" else "none"
       | _, _ => "none"
     ({ st1 with model := some m', mon := mon' },
      { modelObs := showRes op (if st.v6 && r == .exhausted then .ok else r) m', viols := vs.map fun v => (v.name, clause v, v.detail) })
